@@ -316,6 +316,10 @@ func (c *Ctx) seeElemRead(key, ref, idx string) {
 		if pr.except != "" {
 			exc := replaceTok(replaceTok(pr.except, "r!", ref), "j!", idx)
 			c.rawFact(implies(pr.reach, fmt.Sprintf("(=> (and %[2]s (not %[3]s)) (= (select (select %[4]s %[1]s) %[5]s) (select (select %[6]s %[1]s) %[5]s)))", ref, bound, exc, pr.cur, idx, pr.old)))
+			if pr.inside != "" {
+				in := replaceTok(replaceTok(pr.inside, "r!", ref), "j!", idx)
+				c.rawFact(implies(pr.reach, fmt.Sprintf("(=> (and %[2]s %[3]s) (= (select (select %[4]s %[1]s) %[5]s) %[6]s))", ref, bound, exc, pr.cur, idx, in)))
+			}
 		} else {
 			c.rawFact(implies(pr.reach, fmt.Sprintf("(=> %s (= (select %s %s) (select %s %s)))", bound, pr.cur, ref, pr.old, ref)))
 		}
